@@ -278,6 +278,32 @@ theorem violations_nil {g : G} (R : Reach g) (he : endState g = true) : (obsOf g
   simp only [Obs.violations, obsOf, c1, c2, c3, cOrd, c4, c5, c6, hdr, c8, c9, ↓reduceIte, List.append_nil,
     beq_self_eq_true]
 
+/-- Whenever the live receiver's mailbox is quiet, every send that has returned `Ok` has been handled
+(no quiescence of the senders needed: a returned `Ok` means the enqueue is done). -/
+theorem quiet_all_ok_handled {g : G} (R : Reach g) (hq : quiet g.sh = true) :
+    ∀ r ∈ g.sh.rets, r.isOkSend = true → r.id ∈ g.sh.handled := by
+  have Q := R.q
+  simp only [quiet, Bool.and_eq_true, List.isEmpty_iff, Option.isNone_iff_eq_none, Bool.not_eq_true'] at hq
+  obtain ⟨⟨⟨⟨hqueue, htaken⟩, hopen⟩, hrs⟩, hso⟩ := hq
+  intro r hr hok
+  simp only [Ret.isOkSend, Ret.isSend, Bool.and_eq_true] at hok
+  have hpos : 0 < g.sh.rets.countP (Ret.okFor r.id) :=
+    List.countP_pos_iff.mpr ⟨r, hr, by
+      simp only [Ret.okFor, beq_self_eq_true, Bool.true_and, Bool.and_eq_true]; exact hok⟩
+  have h2 := (R.ids r.id).oks
+  have hc := congrArg (List.count (Item.msg r.id)) Q.conserve
+  simp only [List.count_append] at hc
+  rw [Q.flushed_closed hopen, hqueue] at hc
+  simp only [List.count_nil, Nat.add_zero] at hc
+  have hd : g.sh.dropped = [] := by
+    cases hd : g.sh.dropped with
+    | nil => rfl
+    | cons x l => have := (Q.dropped_why (by simp [hd])).1; simp [hso] at this
+  have hh := congrArg (List.count r.id) Q.handled_eq
+  rw [hd, htaken] at hh
+  simp only [List.count_append, count_msgIds, Option.toList, List.count_nil, Nat.add_zero] at hh
+  exact List.count_pos_iff.mp (by omega)
+
 /-- What an empty `Obs.violations` says, clause by clause. -/
 theorem violations_nil_clauses (o : Obs) (h : o.violations = []) :
     nodupNat o.handled = true ∧
